@@ -1,1 +1,146 @@
+(* Timer arithmetic of C02: advertised timeout vs enforced timeout vs client keep-alive period, and the
+   UDP check timer of a session (server_session.go:617-625, :671-691; client.go:1281-1293). *)
+From Coq Require Import List NArith Bool Lia ZifyBool ZifyNat ZifyN.
 From GV_serversm Require Import Model.
+Import ListNotations.
+Open Scope N_scope.
+
+(* ---------- formulas (F14: the domain is IdleTimeout >= 2 s) ---------- *)
+Lemma div_sec_bounds idle : idle / sec * sec <= idle /\ idle < idle / sec * sec + sec.
+Proof.
+  unfold sec. pose proof (N.div_mod idle 1000000000 ltac:(lia)).
+  pose proof (N.mod_lt idle 1000000000 ltac:(lia)). lia.
+Qed.
+
+Theorem advertised_le_enforced idle : 2 * sec <= idle -> advertised idle * sec <= idle.
+Proof.
+  intros H. unfold advertised. destruct (div_sec_bounds idle) as [A B].
+  assert (2 <= idle / sec) by (unfold sec in *; lia). unfold sec in *. lia.
+Qed.
+
+(* the library's own client sends keep-alives at least one second before the enforced timeout *)
+Theorem keepalive_below_enforced idle : 2 * sec <= idle -> keepalive (advertised idle) + sec <= idle.
+Proof.
+  intros H. unfold keepalive, advertised. destruct (div_sec_bounds idle) as [A B].
+  assert (2 <= idle / sec) by (unfold sec in *; lia). unfold sec in *. lia.
+Qed.
+
+(* below 2 s the claim fails: at exactly 1 s the keep-alive period equals the enforced timeout, and
+   below 1 s the advertised timeout exceeds it *)
+Example keepalive_not_below_1s : keepalive (advertised (1 * sec)) = 1 * sec.
+Proof. reflexivity. Qed.
+Example advertised_exceeds_below_1s : advertised (sec / 2) * sec > sec / 2.
+Proof. vm_compute. reflexivity. Qed.
+
+(* ---------- the check timer ---------- *)
+Definition timeout_of (cf : tcfg) : N := if t_record cf then t_read cf else t_idle cf.
+
+Lemma tstep_expired cf s e : texp s <> None -> tstep cf s e = s.
+Proof. unfold tstep. destruct (texp s); [reflexivity|contradiction]. Qed.
+
+(* a peer that keeps sending requests: at no instant of the trace have more than P ns passed since
+   the last request *)
+Fixpoint live_req (P : N) (lr : N) (evs : list tev) : Prop :=
+  match evs with
+  | [] => True
+  | TReq t :: r => t <= lr + P /\ live_req P t r
+  | TPkt t :: r => t <= lr + P /\ live_req P lr r
+  | TTick t :: r => t <= lr + P /\ live_req P lr r
+  end.
+
+Theorem live_peer_not_expired_requests cf P evs : forall s,
+  t_record cf = false -> P < t_idle cf ->
+  texp s = None -> live_req P (lastreq s) evs ->
+  texp (trun cf s evs) = None.
+Proof.
+  unfold trun. induction evs as [|e r IH]; intros s R LT N L; cbn [fold_left]; [exact N|].
+  destruct e as [t|t|t]; cbn [live_req] in L; destruct L as [L1 L2]; apply IH; auto;
+    unfold tstep; rewrite N; cbn [texp lastreq]; auto.
+  - unfold expire_now. rewrite R.
+    destruct (t_idle cf <=? t - lastreq s) eqn:A; [lia|]. cbn [andb]. exact N.
+  - unfold expire_now. rewrite R.
+    destruct (t_idle cf <=? t - lastreq s) eqn:A; [lia|]. cbn [andb]. exact L2.
+Qed.
+
+(* a peer that keeps sending datagrams (RTCP when playing, RTP/RTCP when recording): the last-packet
+   clock has one-second resolution, so the period must stay one second below the timeout *)
+Fixpoint live_pkt (P : N) (lp : N) (evs : list tev) : Prop :=
+  match evs with
+  | [] => True
+  | TReq t :: r => t <= lp + P /\ live_pkt P lp r
+  | TPkt t :: r => t <= lp + P /\ live_pkt P t r
+  | TTick t :: r => t <= lp + P /\ live_pkt P lp r
+  end.
+
+Theorem live_peer_not_expired_datagrams cf P evs : forall s lp,
+  P + sec <= timeout_of cf ->
+  texp s = None -> lastpkt_s s = lp / sec -> live_pkt P lp evs ->
+  texp (trun cf s evs) = None.
+Proof.
+  unfold trun. induction evs as [|e r IH]; intros s lp LT N E L; cbn [fold_left]; [exact N|].
+  destruct e as [t|t|t]; cbn [live_pkt] in L; destruct L as [L1 L2].
+  - apply (IH _ lp); auto; unfold tstep; rewrite N; cbn; auto.
+  - apply (IH _ t); auto; unfold tstep; rewrite N; cbn; auto.
+  - assert (X : expire_now cf s t = false).
+    { unfold expire_now, timeout_of in *. rewrite E. destruct (div_sec_bounds lp) as [A B].
+      destruct (t_record cf).
+      - destruct (t_read cf <=? t - lp / sec * sec) eqn:C; [lia|reflexivity].
+      - destruct (t_idle cf <=? t - lp / sec * sec) eqn:C; [lia|]. apply andb_false_r. }
+    apply (IH _ lp); auto; unfold tstep; rewrite N, X; auto.
+Qed.
+
+(* a silent peer: only timer ticks, consecutive ticks at most g apart (g = check period + processing
+   delay), the first at most g after t0 *)
+Fixpoint dense (g : N) (t0 : N) (ts : list N) : Prop :=
+  match ts with
+  | [] => True
+  | t :: r => t0 <= t /\ t <= t0 + g /\ dense g t r
+  end.
+
+(* the instant from which the session is expirable *)
+Definition deadline (cf : tcfg) (s : tstate) : N :=
+  if t_record cf then lastpkt_s s * sec + t_read cf
+  else N.max (lastreq s) (lastpkt_s s * sec) + t_idle cf.
+
+Lemma expire_iff cf s t : 0 < timeout_of cf -> expire_now cf s t = true <-> deadline cf s <= t.
+Proof.
+  unfold expire_now, deadline, timeout_of. destruct (t_record cf); intros P.
+  - rewrite N.leb_le. lia.
+  - rewrite andb_true_iff, !N.leb_le. lia.
+Qed.
+
+Theorem silent_peer_expired cf g ts : forall s t0,
+  0 < timeout_of cf ->
+  texp s = None -> t0 <= deadline cf s -> dense g t0 ts ->
+  (exists t, In t ts /\ deadline cf s <= t) ->
+  exists te, texp (trun cf s (map TTick ts)) = Some te /\ deadline cf s <= te /\ te <= deadline cf s + g.
+Proof.
+  unfold trun. induction ts as [|t r IH]; intros s t0 P N LE D (t1 & I & G); [destruct I|].
+  cbn [dense] in D. destruct D as (D1 & D2 & D3). cbn [map fold_left]. unfold tstep at 2. rewrite N.
+  destruct (expire_now cf s t) eqn:X.
+  - exists t. apply (expire_iff cf s t P) in X.
+    assert (F : forall l s', texp s' = Some t -> texp (fold_left (tstep cf) l s') = Some t).
+    { induction l as [|e l IHl]; intros s' H; [exact H|]. cbn [fold_left]. rewrite tstep_expired by congruence. auto. }
+    rewrite F by reflexivity. split; [reflexivity|]. lia.
+  - assert (NX : ~ deadline cf s <= t) by (intros C; apply (expire_iff cf s t P) in C; congruence).
+    apply (IH s t); auto; [lia|]. destruct I as [<-|I]; [contradiction|eauto].
+Qed.
+
+(* the deadline is at most (last activity) + timeout: the one-second truncation only makes it earlier *)
+Lemma deadline_bound cf s lp lr :
+  lastpkt_s s = lp / sec -> lastreq s = lr ->
+  deadline cf s <= N.max lr lp + timeout_of cf.
+Proof.
+  intros E1 E2. unfold deadline, timeout_of. rewrite E1, E2. destruct (div_sec_bounds lp) as [A B].
+  destruct (t_record cf); lia.
+Qed.
+
+(* non-vacuity *)
+Example timer_example_silent :
+  texp (trun (mkTcfg false (3 * sec) (10 * sec)) (tinit 0)
+             (map TTick [1 * sec; 2 * sec; 3 * sec; 4 * sec])) = Some (3 * sec).
+Proof. vm_compute. reflexivity. Qed.
+Example timer_example_live :
+  texp (trun (mkTcfg false (3 * sec) (10 * sec)) (tinit 0)
+             [TTick (1 * sec); TReq (2 * sec); TTick (3 * sec); TTick (4 * sec); TReq (4 * sec + 1); TTick (6 * sec)]) = None.
+Proof. vm_compute. reflexivity. Qed.
